@@ -1030,7 +1030,11 @@ func runContention(r *ev.Run) {
 		bound, budget = 2, 5*time.Minute
 	}
 	for _, cs := range contentionScenarios(!r.Quick()) {
-		res := sched.Explore(cs.scenario(r), bound, budget)
+		b := bound
+		if len(cs.Threads) > 2 && b > 1 {
+			b-- // one more thread: the bound that completes within the budget is one lower
+		}
+		res := sched.Explore(cs.scenario(r), b, budget)
 		waited := false
 		for o := range res.Outcomes {
 			if !strings.HasPrefix(o, "waits=0") {
